@@ -30,6 +30,24 @@ class Decoder final
 public:
     std::vector<std::shared_ptr<Packet>> decode(const void* data, const std::size_t size);
 
+#ifdef ASAM_CMP_LIB_VERIF
+    // Verification hook: read-only view of the pending reassembly table
+    struct VerifPending
+    {
+        uint16_t deviceId;
+        uint8_t streamId;
+        size_t bufferedBytes;
+    };
+
+    std::vector<VerifPending> verifPending() const
+    {
+        std::vector<VerifPending> result;
+        for (const auto& entry : segmentedPackets)
+            result.push_back({entry.first.deviceId, entry.first.streamId, entry.second.verifBufferedBytes()});
+        return result;
+    }
+#endif  // ASAM_CMP_LIB_VERIF
+
 private:
     static bool isSegmentedPacket(const uint8_t* data, const size_t);
     static bool isFirstSegment(const uint8_t* data, const size_t);
@@ -74,6 +92,13 @@ private:
 
         bool isAssembled() const;
         std::shared_ptr<Packet> getPacket();
+
+#ifdef ASAM_CMP_LIB_VERIF
+        size_t verifBufferedBytes() const
+        {
+            return payload.size();
+        }
+#endif  // ASAM_CMP_LIB_VERIF
 
     private:
         MessageHeader* getHeader();
